@@ -163,6 +163,7 @@ class World(object):
         self.leaf_label = {}     # id(leaf) -> label
         self.leaf_obj = {}       # label -> leaf object
         self.keep = []           # strong references (ids must stay unique)
+        self.block_requests = []
         self.created_log = []    # every Constraint / PSDMatrix ever created: dict(obj, kind, origin, owner, opi, solve)
         self.current_opi = None
         self.epoch = None
@@ -359,6 +360,12 @@ class World(object):
             self.nops_done += 1
             if "immut" in self.oracles:
                 self.check_immutability()
+            if "book" in self.oracles and out["status"] != "skipped":
+                from sim import machines
+                machines.check_book(self, i, op, out)
+            if "blocks" in self.oracles and out["status"] != "skipped":
+                from sim import machines
+                machines.check_blocks(self, i, op, out)
 
     @staticmethod
     def _inputs(op):
@@ -681,6 +688,7 @@ class World(object):
         xb = B.get_block(x, op["k"])
         self.bind(op["out"], xb, "point")
         self.reach["get_block"] += 1
+        self.block_requests.append((op["B"], op["x"]))
 
     def op_step(self, op):
         import PEPit.primitive_steps as S
@@ -806,6 +814,9 @@ class World(object):
             oracles.check_handles(self, rec)
         elif op["what"] == "attr_primal":
             oracles.check_attr_primal(self, rec)
+        elif op["what"] == "partition_relations":
+            from sim import machines
+            machines.check_partition_relations(self, rec)
         return None
 
     def op_attr(self, op):
